@@ -124,10 +124,14 @@ impl Prop for C25 {
                         } else {
                             paths[t].clone()
                         };
+                        // presentation variants of the directive: quoted path, tabs, trailing comment
+                        let path_txt = if chance(r, 25) { format!("\"{written}\"") } else { written.clone() };
+                        let sep = if chance(r, 20) { "\t" } else { " " };
+                        let tail = if chance(r, 20) { " ; included here" } else { "" };
                         if chance(r, 40) {
-                            lines.push(format!("$INCLUDE {written} {}", pick(r, ORIGINS)));
+                            lines.push(format!("$INCLUDE{sep}{path_txt}{sep}{}{tail}", pick(r, ORIGINS)));
                         } else {
-                            lines.push(format!("$INCLUDE {written}"));
+                            lines.push(format!("$INCLUDE{sep}{path_txt}{tail}"));
                         }
                     }
                     _ => {
@@ -243,9 +247,12 @@ impl<'a> Model<'a> {
             if let Some(o) = l.strip_prefix("$ORIGIN ") {
                 *origin = o.trim().to_string();
                 self.out.push(FLine { text: l.clone(), path: path.to_path_buf(), line: line_no });
-            } else if let Some(rest) = l.strip_prefix("$INCLUDE ") {
+            } else if let Some(rest) = l.strip_prefix("$INCLUDE") {
+                // the model's own reading of the directive: optional quotes around the path,
+                // blanks or tabs between fields, an optional origin, an optional comment
+                let rest = rest.split(';').next().unwrap_or("");
                 let mut it = rest.split_whitespace();
-                let target_txt = it.next().expect("include path");
+                let target_txt = it.next().expect("include path").trim_matches('"');
                 let inc_origin = it.next();
                 if depth >= self.max_depth {
                     return Err(ModelErr::TooDeep { path: path.to_path_buf(), line: line_no });
